@@ -658,6 +658,53 @@ theorem qmpt_crb_fails :
   revert h'
   decide +kernel
 
+section indep
+variable {K : Type} [Field K] [CharZero K] {m : Nat}
+
+/-- C19 (independence of the schedules): the expectation of (a function of the first schedule's counts) × (a function of the others') factorises -/
+theorem expectJoint_head_indep (p : Vec K m) (n : Nat) (r : List (Vec K m × Nat))
+    (u : Vec Nat m → K) (g : List (Vec Nat m) → K) :
+    expectJoint ((p, n) :: r) (fun cs => match cs with | c :: rest => u c * g rest | [] => 0)
+      = expectN p n u * expectJoint r g := by
+  simp only [expectJoint]
+  have : ∀ c : Vec Nat m, expectJoint r (fun cs => u c * g cs) = u c * expectJoint r g :=
+    fun c => expectJoint_smul r (u c) g
+  rw [expectN_congr p n this, expectN_mul_const]
+
+/-- C19 (joint covariance = direct sum): cross-schedule covariance vanishes — the joint covariance matrix of all empirical distributions is the DIRECT SUM of the
+per-schedule covariances (what `calc_covariance_mat_total` builds with `calc_direct_sum`) -/
+theorem cross_covariance_zero (p : Vec K m) (hp : ∑ i, p.get i = 1) (n : Nat) (hn : 1 ≤ n) (r : List (Vec K m × Nat))
+    (i : Fin m) (g : List (Vec Nat m) → K) :
+    expectJoint ((p, n) :: r)
+        (fun cs => match cs with | c :: rest => ((empi (K := K) c n).get i - p.get i) * g rest | [] => 0) = 0 := by
+  rw [expectJoint_head_indep p n r (fun c => (empi (K := K) c n).get i - p.get i) g, multinomial_mean p hp n hn i, zero_mul]
+
+end indep
+
+section clip
+variable {K : Type} [Field K] [LinearOrder K] [IsStrictOrderedRing K]
+
+/-- C19 (`replace_prob_dist`, clipping active): every entry below `eps` becomes `eps`, every other entry is lowered by the same amount
+`eps·cnt/(size − cnt)` -/
+theorem replace_entries (ps : List K) (eps : K) :
+    replaceProbDist ps eps = ps.map fun p =>
+      if p < eps then eps
+      else p - eps * ((ps.filter fun x => decide (x < eps)).length : K)
+            / ((ps.length - (ps.filter fun x => decide (x < eps)).length : Nat) : K) := rfl
+
+/-- C19 (`replace_prob_dist`, mass is moved, not created): when at least one entry is not clipped, the replaced distribution sums to
+the mass of the unclipped entries, `Σ_{p ≥ eps} p = 1 − Σ_{p < eps} p` for a distribution. -/
+theorem replace_sum (ps : List K) (eps : K)
+    (hbig : (ps.filter fun x => decide (x < eps)).length < ps.length) :
+    lsum (replaceProbDist ps eps) = lsum (ps.filter fun x => !decide (x < eps)) := by
+  rw [replace_entries, lsum_map_split, filter_lengths]
+  have hne : (((ps.length - (ps.filter fun x => decide (x < eps)).length : Nat)) : K) ≠ 0 := by
+    have : 0 < ps.length - (ps.filter fun x => decide (x < eps)).length := by omega
+    exact_mod_cast this.ne'
+  field_simp
+  ring
+end clip
+
 /-! ## validation of the helpers (repaired code) -/
 
 /-- C19 (`calc_fisher_matrix_total`, size): a successful call returns a square matrix whose size is the
@@ -698,9 +745,8 @@ theorem fisherAcc_step (size : Nat) (eps : K) (ps : List K) (grads : List (List 
       = fisherAcc size eps r ws (addRows acc (scaleRows w F)) := by
   simp [fisherAcc, hF, accumulate, bind, Except.bind, scaleRows]
 
-/-- C19 (`calc_fisher_matrix_total`, value — partial): for one distribution the total is `0 + w·F`; for several, `fisherAcc_step` adds
-`w_j·F_j` one after the other. Missing: the closed sum `Σ_j w_j F_j` entrywise for an arbitrary number of distributions. -/
-theorem fisherTotal_single_partial (ps : List K) (g0 : List K) (gr : List (List K)) (w eps : K) (F : List (List K))
+/-- C19 (`calc_fisher_matrix_total`, one distribution): the total is `0 + w·F` (special case of `fisherTotal_value`). -/
+theorem fisherTotal_single (ps : List K) (g0 : List K) (gr : List (List K)) (w eps : K) (F : List (List K))
     (hw : ¬ w < 0)
     (hF : fisher ps (g0 :: gr) eps = .ok (g0.length, F)) :
     fisherTotal [ps] [g0 :: gr] [w] eps = .ok (g0.length, addRows (zeroRows g0.length) (scaleRows w F)) := by
@@ -709,6 +755,53 @@ theorem fisherTotal_single_partial (ps : List K) (g0 : List K) (gr : List (List 
     List.any_nil, Bool.or_false, decide_eq_true_eq, hw, List.zip_cons_cons, List.zip_nil_right]
   rw [fisherAcc_step _ _ _ _ _ _ _ _ F hF]
   simp [fisherAcc]
+/-- C19 (`calc_fisher_matrix_total`, closed form of the loop): when every distribution's Fisher matrix has the accumulator's size, the loop
+returns `acc + Σ_j w_j·F_j` (fold in list order), for any number of distributions. -/
+theorem fisherAcc_value (size : Nat) (eps : K)
+    (trip : List ((List K × List (List K)) × K × List (List K)))
+    (h : ∀ t ∈ trip, fisher t.1.1 t.1.2 eps = .ok (size, t.2.2)) (acc : List (List K)) :
+    fisherAcc size eps (trip.map (·.1)) (trip.map (·.2.1)) acc
+      = .ok (trip.foldl (fun a t => addRows a (scaleRows t.2.1 t.2.2)) acc) := by
+  induction trip generalizing acc with
+  | nil => simp [fisherAcc]
+  | cons t r ih =>
+    obtain ⟨⟨ps, grads⟩, w, F⟩ := t
+    simp only [List.map_cons, List.foldl_cons]
+    rw [fisherAcc_step size eps ps grads _ w _ acc F (h _ (List.mem_cons_self ..))]
+    exact ih (fun t ht => h t (List.mem_cons_of_mem _ ht)) _
+
+/-- C19 (`calc_fisher_matrix_total`, value): for any number of distributions with non-negative weights whose single Fisher matrices are
+`F_j` (all of the size `len(grad_prob_dists[0][0])`), the call returns `Σ_j w_j·F_j`. -/
+theorem fisherTotal_value (eps : K) (g00 : List K) (g0r : List (List K)) (ps0 : List K) (w0 : K) (F0 : List (List K))
+    (trip : List ((List K × List (List K)) × K × List (List K)))
+    (hw : ∀ t ∈ ((ps0, g00 :: g0r), w0, F0) :: trip, ¬ t.2.1 < 0)
+    (h : ∀ t ∈ ((ps0, g00 :: g0r), w0, F0) :: trip, fisher t.1.1 t.1.2 eps = .ok (g00.length, t.2.2)) :
+    fisherTotal (ps0 :: trip.map (·.1.1)) ((g00 :: g0r) :: trip.map (·.1.2)) (w0 :: trip.map (·.2.1)) eps
+      = .ok (g00.length, (((ps0, g00 :: g0r), w0, F0) :: trip).foldl
+          (fun a t => addRows a (scaleRows t.2.1 t.2.2)) (zeroRows g00.length)) := by
+  unfold fisherTotal
+  have hneg : ((w0 :: trip.map (·.2.1)).any fun w => decide (w < 0)) = false := by
+    rw [List.any_eq_false]
+    intro w hw'
+    have : ∃ t ∈ ((ps0, g00 :: g0r), w0, F0) :: trip, t.2.1 = w := by
+      rcases List.mem_cons.mp hw' with rfl | hm
+      · exact ⟨_, List.mem_cons_self .., rfl⟩
+      · obtain ⟨t, ht, rfl⟩ := List.mem_map.mp hm
+        exact ⟨t, List.mem_cons_of_mem _ ht, rfl⟩
+    obtain ⟨t, ht, rfl⟩ := this
+    simpa using hw t ht
+  simp only [List.length_cons, List.length_map, ne_eq, not_true_eq_false, if_false, hneg, Bool.false_eq_true]
+  have hz : (ps0 :: trip.map (·.1.1)).zip ((g00 :: g0r) :: trip.map (·.1.2))
+      = (((ps0, g00 :: g0r), w0, F0) :: trip).map (·.1) := by
+    have hz2 : ∀ l : List ((List K × List (List K)) × K × List (List K)),
+        (l.map (·.1.1)).zip (l.map (·.1.2)) = l.map (·.1) := by
+      intro l; induction l with
+      | nil => rfl
+      | cons t r ih => simp [ih]
+    simp only [List.zip_cons_cons, List.map_cons, List.cons.injEq, true_and]
+    exact hz2 trip
+  have hws : w0 :: trip.map (·.2.1) = (((ps0, g00 :: g0r), w0, F0) :: trip).map (·.2.1) := by simp
+  rw [hz, hws, fisherAcc_value g00.length eps _ h]
 end totalValue
 
 /-- C19 (`calc_direct_sum`, squareness): a block is accepted exactly when it is square. -/
@@ -775,5 +868,16 @@ example : varDdof? (K := Rat) 1 [5] = none ∧ mean? (K := Rat) [] = none ∧
   decide +kernel
 example : (mseProbDists (K := Rat) [[[1, 2]], [[3, 4]], [[0, 0]]] [[[1, 1]], [[1, 1]], [[1, 1]]]).toOption
     = some (some (16/3), some (133/3)) := by decide +kernel
+
+/-- `fisherTotal_value`: two distributions, weights 2 and 3 -/
+example : (fisherTotal (K := Rat) [[1/2, 1/2], [1/4, 3/4]] [[[1], [-1]], [[1], [-1]]] [2, 3] defaultEps).toOption
+    = some (1, [[2 * 4 + 3 * (16/3)]]) := by decide +kernel
+/-- `replace_sum`: one of three entries is clipped, the sum is the mass of the other two -/
+example : lsum (replaceProbDist (K := Rat) [0, 1/4, 3/4] (1/100)) = 1/4 + 3/4 := by decide +kernel
+/-- `cross_covariance_zero` on two schedules: E[(f¹₀ − p¹₀)(f²₁ − p²₁)] = 0 -/
+example : expectJoint (K := Rat) [(Vec.ofFn fun i : Fin 2 => if i.val = 0 then (1/4 : Rat) else 3/4, 2), (Vec.ofFn fun _ => 1/2, 3)]
+    (fun cs => match cs with
+      | [c1, c2] => ((empi (K := Rat) c1 2).get 0 - 1/4) * ((empi (K := Rat) c2 3).get 1 - 1/2)
+      | _ => 0) = 0 := by decide +kernel
 
 end QM.C19
